@@ -47,18 +47,55 @@ func (r *verifScriptReader) Read(p []byte) (int, error) {
 // and the largest block that fits the maximum packet size); contents opaque.
 var verifC11Lens = []int{0, 1, 7, 252, 253, 254, 8796}
 
+// verifC11Forms: also multi-byte type numbers and every length form a decoder of this repository accepts for the
+// length (1-, 3- and 5-byte forms, also where a shorter form exists: enc.ReadTLNum does not insist on the shortest)
+var verifC11Forms bool
+var verifC11FormsLeft int // number of further blocks that get the extended forms
+
 func verifC11Block(stream []byte) ([]byte, int) {
-	typ := byte(verifRange("typ", 1, 0xfc))
 	start := len(stream)
-	stream = append(stream, typ)
+	tform := 0
+	forms := verifC11Forms && verifC11FormsLeft > 0
+	if forms {
+		verifC11FormsLeft--
+		tform = verifChoice("typeform", 3)
+	}
+	switch tform {
+	case 0:
+		stream = append(stream, byte(verifRange("typ", 1, 0xfc)))
+	case 1:
+		t := verifRange("typ3", 253, 0xffff)
+		stream = append(stream, 0xfd, byte(t>>8), byte(t))
+	case 2:
+		t := verifRange("typ5", 0x10000, 0xffffffff)
+		stream = append(stream, 0xfe, byte(t>>24), byte(t>>16), byte(t>>8), byte(t))
+	}
 	plen := verifC11Lens[verifChoice("plen", len(verifC11Lens))]
-	if plen <= 0xfc {
+	lform := 0
+	if plen > 0xfc {
+		lform = 1
+	}
+	if forms {
+		lform += verifChoice("lenform", 3-lform)
+	}
+	switch lform {
+	case 0:
 		stream = append(stream, byte(plen))
-	} else {
+	case 1:
 		stream = append(stream, 0xfd, byte(plen>>8), byte(plen))
+	case 2:
+		stream = append(stream, 0xfe, 0, 0, byte(plen>>8), byte(plen))
 	}
 	stream = append(stream, verifBytesUF("payload", plen)...)
 	return stream, len(stream) - start
+}
+
+// Every header form: 1-, 3- and 5-byte type numbers, 1-, 3- and 5-byte length forms; reads may end inside either field.
+func VerifC11_HeaderForms() {
+	verifC11Forms = true
+	verifC11FormsLeft = verifParam("formsblocks", 1) // the first block(s); the following ones show a mis-framing
+	verifC11Lens = []int{0, 253, 7}[:verifParam("formlens", 2)]
+	verifC11Stream(verifParam("formblocks", 2), verifParam("formreads", 3), false)
 }
 
 func VerifC11_StreamFromEntry() {
